@@ -735,3 +735,63 @@ func init() {
 		},
 	})
 }
+
+func init() {
+	register(&Rule{
+		Name: "small-primitives", Props: []string{"C03", "C02", "C20", "C01"}, Engine: "FDE", Floor: 4,
+		Doc: "three small functions much of the rest stands on: HeaderField.Empty is true exactly when both the name and the value are empty (the decoders take it for 'this step produced no field'; a field with an empty value is a field); HeaderField.Set and SetBytes set both the name and the value; parseUint starts from zero and takes each digit as ten times what it has plus the digit, after refusing a non-digit and a value that would not fit",
+		Run: func(p *Prog, r *Out) {
+			if fd := p.decl("(*HeaderField).Empty"); fd != nil && len(fd.Body.List) == 1 {
+				r.fn("(*HeaderField).Empty")
+				res := retResults(fd.Body.List[0])
+				ok := false
+				if len(res) == 1 {
+					okE, _, _, folded := p.equivOver(res[0], fdeDomain{[]string{"len(hf.key)", "len(hf.value)"}, [][]int64{{0, 1, 2}, {0, 1, 2}}}, nil, func(e fdeEnv) int64 {
+						return b2i(e["len(hf.key)"] == 0 && e["len(hf.value)"] == 0)
+					})
+					ok = okE && folded
+				}
+				r.check(ok, "a header field is empty exactly when it has neither name nor value", p.pos(fd.Pos()), "len(key) == 0 && len(value) == 0", "HeaderField.Empty is no longer 'no name and no value': a field whose value is empty is taken by the decoders for a step that produced nothing, and is dropped")
+			} else {
+				r.undecided("Empty", "?", "(*HeaderField).Empty no longer resolves as a single return")
+			}
+			for _, s := range []struct{ fn, a, b string }{
+				{"(*HeaderField).Set", "hf.SetKey(k)", "hf.SetValue(v)"},
+				{"(*HeaderField).SetBytes", "hf.SetKeyBytes(k)", "hf.SetValueBytes(v)"},
+			} {
+				fd := p.decl(s.fn)
+				if fd == nil {
+					r.undecided(s.fn, "?", "no longer resolves")
+					continue
+				}
+				r.fn(s.fn)
+				r.check(hasStmt(p, fd.Body.List, s.a) && hasStmt(p, fd.Body.List, s.b), s.fn+" sets the name and the value", p.pos(fd.Pos()), s.a+"; "+s.b, s.fn+" no longer sets both the name and the value of the field: the client's requests go out with the name or the value of the field before")
+			}
+			if fd := p.decl("parseUint"); fd != nil {
+				r.fn("parseUint")
+				zero, step := false, false
+				ast.Inspect(fd.Body, func(n ast.Node) bool {
+					as, ok := n.(*ast.AssignStmt)
+					if !ok || len(as.Lhs) != 1 || p.text(as.Lhs[0]) != "n" {
+						return true
+					}
+					if as.Tok == token.DEFINE {
+						if v, okv := p.intConst(as.Rhs[0]); okv && v == 0 {
+							zero = true
+						}
+					}
+					if as.Tok == token.ASSIGN {
+						okE, _, _, folded := p.equivOver(as.Rhs[0], fdeDomain{[]string{"n", "c"}, [][]int64{{0, 1, 7, 12, 999}, {'0', '1', '5', '9'}}}, nil, func(e fdeEnv) int64 {
+							return e["n"]*10 + (e["c"] - '0')
+						})
+						step = okE && folded
+					}
+					return true
+				})
+				r.check(zero && step, "parseUint accumulates base-10 digits from zero", p.pos(fd.Pos()), "n := 0; n = n*10 + int(c-'0')", "parseUint no longer starts at zero and takes each digit as ten times the value so far plus the digit: content-length and :status mean something else than what was sent")
+			} else {
+				r.undecided("parseUint", "?", "no longer resolves")
+			}
+		},
+	})
+}
